@@ -1,81 +1,143 @@
 /-
 C07 — JSONPath selectors return exactly the designated nodes of the document.
+
+Proved here, for every heap, working set and fuel:
+* slices: the index list `sliceIndexes` computes from the bounds ApplyJSONPath prepares is Python's `a[s:e:st]` for every
+  length, every pair of bounds (absent, negative, beyond either end) and every non-zero step, in Python's order
+  (`C07_slice_is_python`, `C07_python_is_progression`, `C07_slice_order`), and the slice command selects exactly the children
+  at those indices of every non-empty array in the working set (`C07_slice_command`);
+* key / index / union: the result is the concatenation, key by key in the listed order and member by member, of the child
+  under the unquoted key (objects) or at the index counted from the end when negative (arrays) (`C07_union`);
+* `$`, `@`, `*`, `..` as closed forms (`C07_root`, `C07_current`, `C07_wildcard`, `C07_descendant`).
+The commands are taken as tokenised by the model's tokenizer (hypothesis `tok`), which is tied to the implementation by the
+`scan` correspondence stream; the tie of the children maps to the abstract document is the heap invariant (C06).
 -/
-import Ajson.Model.Path
+import Ajson.Proofs.Slice
+import Ajson.Proofs.PathSel
 
 namespace Ajson.Props.C07
-open Ajson Ajson.Heap
+open Ajson Ajson.Heap Ajson.Spec Ajson.Proofs
 
 /-! ### slices: the index arithmetic is Python's -/
 
-/-- Python's `range(*slice(s, e, st).indices(n))` for st ≠ 0 (CPython `PySlice_AdjustIndices`), on `Option Int` bounds -/
-def pyBounds (n : Nat) (s e : Option Int) (st : Int) : Int × Int :=
-  let len : Int := n
-  if st > 0 then
-    let start := match s with
-      | none => 0
-      | some v => if v < 0 then (if v + len < 0 then 0 else v + len) else (if v > len then len else v)
-    let stop := match e with
-      | none => len
-      | some v => if v < 0 then (if v + len < 0 then 0 else v + len) else (if v > len then len else v)
-    (start, stop)
-  else
-    let start := match s with
-      | none => len - 1
-      | some v => if v < 0 then (if v + len < 0 then -1 else v + len) else (if v ≥ len then len - 1 else v)
-    let stop := match e with
-      | none => -1
-      | some v => if v < 0 then (if v + len < 0 then -1 else v + len) else (if v ≥ len then len - 1 else v)
-    (start, stop)
+/-- for every array length n, all bounds and every non-zero step, the indices the selector visits — after ApplyJSONPath's
+default/negative-bound preparation and clamping — are exactly those of Python's `range(*slice(s,e,st).indices(n))`, in the
+same order -/
+theorem C07_slice_is_python (n : Nat) (s e : Option Int) (st : Int) (hst : st ≠ 0) :
+    sliceIndexes n (ajsonBounds n s e st).1 (ajsonBounds n s e st).2 st = pySlice n s e st :=
+  slice_python n s e st hst
 
-/-- does Python's range visit index k -/
-def pyVisits (n : Nat) (s e : Option Int) (st : Int) (k : Nat) : Bool :=
-  let (start, stop) := pyBounds n s e st
-  let ki : Int := k
-  if st > 0 then start ≤ ki && ki < stop && (ki - start) % st == 0
-  else ki ≤ start && ki > stop && (start - ki) % (-st) == 0
+/-- the reference itself is the arithmetic progression `start, start+st, …` cut off at `stop` -/
+theorem C07_python_is_progression (n : Nat) (s e : Option Int) (st : Int) (hst : st ≠ 0) (k : Nat) :
+    k ∈ pySlice n s e st ↔ k < n ∧ ∃ i : Nat, (k : Int) = (pyBounds n s e st).1 + i * st ∧
+        (if st > 0 then (k : Int) < (pyBounds n s e st).2 else (k : Int) > (pyBounds n s e st).2) := by
+  rw [mem_pySlice, pyVisits_iff_progression n s e st hst k]
 
-/-- what ApplyJSONPath computes before the loop: absent bound ↦ default by direction, present bound ↦ `getPositiveIndex` -/
-def ajsonBounds (n : Nat) (s e : Option Int) (st : Int) : Int × Int :=
-  (match s with | none => (if st > 0 then 0 else (n : Int) - 1) | some v => getPositiveIndex v n,
-   match e with | none => (if st > 0 then (n : Int) else -1) | some v => getPositiveIndex v n)
+/-- ascending for a positive step, descending for a negative one, never a repeated index -/
+theorem C07_slice_order (n : Nat) (s e : Option Int) (st : Int) :
+    if st > 0 then (pySlice n s e st).Pairwise (· < ·) else (pySlice n s e st).Pairwise (· > ·) :=
+  pySlice_sorted n s e st
 
-/-- bounded evidence for the slice arithmetic (NOT the unbounded claim): for every length ≤ 6, all bounds in −8…8
-or absent, all steps in −4…4 except 0, the selector visits exactly Python's indices. The general theorem is open. -/
-example :
-    (List.range 7).all (fun n =>
-      let opts : List (Option Int) := none :: (List.range 17).map (fun (v : Nat) => some ((v : Int) - 8))
-      opts.all (fun s => opts.all (fun e => [(-4 : Int), -3, -2, -1, 1, 2, 3, 4].all (fun st =>
-        (List.range n).all (fun k =>
-          (sliceIndexes n (ajsonBounds n s e st).1 (ajsonBounds n s e st).2 st).contains k == pyVisits n s e st k))))) = true := by
+/-- concrete instances (tests of the statement, not the claim): `[1:3]`, `[::-1]`, `[-2:]`, `[4::-2]` (the D15 input), `[::2]` -/
+example : pySlice 5 (some 1) (some 3) 1 = [1, 2] ∧ pySlice 3 none none (-1) = [2, 1, 0] ∧ pySlice 4 (some (-2)) none 1 = [2, 3]
+    ∧ pySlice 3 (some 4) none (-2) = [2, 0] ∧ pySlice 5 none none 2 = [0, 2, 4] := by decide +kernel
+
+/-- what the slice command selects below one node, in terms of the reference: the children at Python's indices -/
+theorem C07_sliceSelect_python (h : Heap) (f0 f1 f2 : UInt64) (e : Id) (hst : F64.toInt f2 ≠ 0) :
+    sliceSelect h f0 f1 f2 e =
+      if h.isArray e && h.nchildren e > 0 then
+        (pySlice (h.nchildren e) (boundOfF f0) (boundOfF f1) (F64.toInt f2)).filterMap (fun k => (h.childMap e).lookup (itoa k))
+      else [] := by
+  unfold sliceSelect
+  split
+  · rw [← C07_slice_is_python _ _ _ _ hst]
+    simp only [ajsonBounds, boundOfF, Int.ofNat_eq_natCast]
+    congr 2 <;> split <;> simp_all
+  · rfl
+
+/-- the slice command: for every working set, each non-empty array contributes its children at the slice's indices, in
+order; everything else contributes nothing. Bounds are what `getNumberIndex` evaluates (hypotheses h0–h2; for absent and
+plain integer texts see `getNumberIndex_empty/_plain`), NaN meaning "absent". -/
+theorem C07_slice_command (env : Env) (fuel : Nat) (start : Id) (h : Heap) (i : Nat) (cmd : Bytes) (tokens : List Bytes)
+    (hp : SliceCmd env.tbl cmd tokens) (result : List Id) (k0 k1 : Bytes) (rest : List Bytes) (f0 f1 f2 : UInt64)
+    (hkeys : tokensSlice tokens [58] = k0 :: k1 :: rest)
+    (h0 : ∀ e ∈ result, getNumberIndex env fuel h e k0 nanBits = (h, .ok f0))
+    (h1 : ∀ e ∈ result, getNumberIndex env fuel h e k1 nanBits = (h, .ok f1))
+    (h2 : ∀ e ∈ result, (if (k0 :: k1 :: rest).length < 3 then (h, Outcome.ok (F64.ofInt 1))
+            else getNumberIndex env fuel h e ((k0 :: k1 :: rest).getD 2 []) (F64.ofInt 1)) = (h, .ok f2))
+    (hstep : F64.toInt f2 ≠ 0) :
+    applyCmd env (fuel + 1) start h i cmd result =
+      (h, .ok (result.flatMap (fun e => if h.isArray e && h.nchildren e > 0 then
+        (pySlice (h.nchildren e) (boundOfF f0) (boundOfF f1) (F64.toInt f2)).filterMap (fun k => (h.childMap e).lookup (itoa k))
+        else []))) := by
+  rw [C07_slice_cmd env fuel start h i cmd tokens hp result k0 k1 rest f0 f1 f2 hkeys h0 h1 h2 hstep]
+  have : sliceSelect h f0 f1 f2 = fun e => if h.isArray e && h.nchildren e > 0 then
+        (pySlice (h.nchildren e) (boundOfF f0) (boundOfF f1) (F64.toInt f2)).filterMap (fun k => (h.childMap e).lookup (itoa k))
+        else [] := funext fun e => C07_sliceSelect_python h f0 f1 f2 e hstep
+  rw [this]
+
+/-- the hypotheses are satisfiable: `1:3` under the built-in table is a slice command with keys `1`, `3` -/
+example : SliceCmd builtinTable (sBytes "1:3") [sBytes "1", sBytes ":", sBytes "3"] ∧
+    tokensSlice [sBytes "1", sBytes ":", sBytes "3"] [58] = [sBytes "1", sBytes "3"] := by
+  refine ⟨⟨by decide +kernel, by decide +kernel, by decide +kernel, by decide +kernel, by decide +kernel, by decide +kernel, by decide +kernel⟩, by decide +kernel⟩
+
+/-! ### keys, indexes, unions -/
+
+/-- key / index / union commands: for every working set the result is, key by key in the order the keys are written and
+member by member, the child under that key — `selectKey`: for an object the member named by the unquoted key; for an array
+the element at the index, counted from the end when negative; nothing otherwise (absent key, out of range, scalar) -/
+theorem C07_union (env : Env) (fuel : Nat) (start : Id) (h : Heap) (i : Nat) (cmd : Bytes) (tokens : List Bytes)
+    (hp : PlainCmd env.tbl cmd tokens) (result : List Id)
+    (hkeys : ∀ k ∈ (if tokens.contains [44] then tokensSlice tokens [44] else [cmd]), OrdinaryKey k) :
+    applyCmd env (fuel + 1) start h i cmd result =
+      (h, .ok ((if tokens.contains [44] then tokensSlice tokens [44] else [cmd]).flatMap (fun k => result.flatMap (selectKey h k)))) :=
+  Proofs.C07_union env fuel start h i cmd tokens hp result hkeys
+
+/-- the hypotheses are satisfiable: `'a','b'` under the built-in table -/
+example : PlainCmd builtinTable (sBytes "'a','b'") [sBytes "'a'", sBytes ",", sBytes "'b'"] ∧
+    tokensSlice [sBytes "'a'", sBytes ",", sBytes "'b'"] [44] = [sBytes "'a'", sBytes "'b'"] ∧ OrdinaryKey (sBytes "'a'") := by
+  refine ⟨⟨by decide +kernel, by decide +kernel, by decide +kernel, by decide +kernel, by decide +kernel, by decide +kernel, by decide +kernel, by decide +kernel⟩,
+    by decide +kernel, ⟨by decide +kernel, by decide +kernel, by decide +kernel, by decide +kernel⟩⟩
+
+/-- a single key on an object selects the member of that name and nothing else -/
+theorem C07_key_on_object (h : Heap) (key : Bytes) (e : Id) (ho : h.isObject e = true) (ha : h.isArray e = false) :
+    selectKey h key e = ((h.childMap e).lookup (strKey key).1).toList := by
+  simp [selectKey, ho, ha]
+
+/-- an index on a non-empty array selects the element at that position, negative positions counting from the end -/
+theorem C07_index_on_array (h : Heap) (key : Bytes) (e : Id) (num : Int) (ha : h.isArray e = true)
+    (hn : atoi (strKey key).1 = some num) (hne : h.nchildren e ≠ 0) :
+    selectKey h key e = ((h.childMap e).lookup (itoaInt (if num < 0 then num + h.nchildren e else num))).toList := by
+  simp [selectKey, ha, hn, hne, getPositiveIndex]
+
+/-! ### `$`, `@`, `*`, `..` -/
+
+theorem C07_root (env : Env) (fuel : Nat) (start : Id) (h : Heap) (toks : List Bytes)
+    (ht : Cur.tokenize env.tbl [36] = .ok toks) :
+    applyCmd env (fuel + 1) start h 0 [36] [] = (h, .ok [h.root start]) := C07_root_cmd env fuel start h toks ht
+
+theorem C07_current (env : Env) (fuel : Nat) (start : Id) (h : Heap) (toks : List Bytes)
+    (ht : Cur.tokenize env.tbl [64] = .ok toks) :
+    applyCmd env (fuel + 1) start h 0 [64] [] = (h, .ok [start]) := C07_current_cmd env fuel start h toks ht
+
+/-- the wildcard replaces the working set by the children of its members, in member order, each member's children in
+`Inheritors` order (arrays by index, objects by sorted key) -/
+theorem C07_wildcard (env : Env) (fuel : Nat) (start : Id) (h : Heap) (i : Nat) (toks : List Bytes)
+    (ht : Cur.tokenize env.tbl [42] = .ok toks) (result : List Id) (kids : Id → List Id)
+    (hk : ∀ e ∈ result, h.inheritors e = .ok (kids e)) :
+    applyCmd env (fuel + 1) start h i [42] result = (h, .ok (result.flatMap kids)) :=
+  Proofs.C07_wildcard env fuel start h i toks ht result kids hk
+
+/-- `..` keeps the working set and adds all container descendants of its members -/
+theorem C07_descendant (env : Env) (fuel : Nat) (start : Id) (h : Heap) (i : Nat) (toks : List Bytes)
+    (ht : Cur.tokenize env.tbl [46, 46] = .ok toks) (result : List Id) (desc : Id → List Id)
+    (hk : ∀ e ∈ result, h.recursiveChildren (h.size + 1) e = .ok (desc e)) :
+    applyCmd env (fuel + 1) start h i [46, 46] result = (h, .ok (result ++ result.flatMap desc)) :=
+  Proofs.C07_descendant env fuel start h i toks ht result desc hk
+
+/-- the four fixed commands tokenise under the built-in table (so the hypotheses `ht` above hold for it) -/
+example : Cur.tokenize builtinTable [36] = .ok [[36]] ∧ Cur.tokenize builtinTable [64] = .ok [[64]] ∧
+    Cur.tokenize builtinTable [42] = .ok [[42]] ∧ (Cur.tokenize builtinTable [46, 46]).isOk = true := by
   decide +kernel
-
-/-- a descending slice lists its indices in descending order, an ascending one in ascending order -/
-theorem slice_ascending (n : Nat) (i0 i1 st : Int) (h : st > 0) :
-    sliceIndexes n i0 i1 st = (List.range n).filter (fun (k : Nat) =>
-      let ki : Int := k
-      (if i0 < 0 then 0 else i0) ≤ ki && ki < (if i1 > (n : Int) then (n : Int) else i1) && (ki - (if i0 < 0 then 0 else i0)) % st == 0) := by
-  unfold sliceIndexes; simp [h]
-
-/-! ### the command interpreter -/
-
-/-- the wildcard replaces the working set by the children of its members, in order (arrays by index, objects by sorted
-key): `Inheritors` of each, concatenated. Stated for a working set whose members all have well-defined children. -/
-theorem C07_wildcard_one (o : Oracle) (fuel : Nat) (h : Heap) (start : Id) (i : Nat) (e : Id) (kids : List Id)
-    (hk : h.inheritors e = .ok kids) :
-    applyCmd ⟨builtinTable, o⟩ (fuel + 1) start h i [42] [e] = (h, .ok kids) := by
-  have t : Cur.tokenize builtinTable [42] = .ok [[42]] := by decide +kernel
-  unfold Heap.applyCmd
-  simp [t, foldO, hk]
-
-/-- a successful result holds node ids, never "nil": the result type of the model has no absent entry, and the
-selection branches add a node only when the children map has it (`lookup … |>.toList`) -/
-theorem C07_no_nil_entry (env : Env) (fuel : Nat) (h : Heap) (n : Option Id) (cmds : List Bytes) (h' : Heap) (rs : List Id) :
-    h.applyJSONPath env fuel n cmds = (h', .ok rs) → ∀ r ∈ rs, ∃ id : Id, r = id := fun _ r _ => ⟨r, rfl⟩
-
-/-- evaluating the same path on the same heap again gives the same list: the interpreter is a function of the heap,
-and map order never reaches it (objects are walked in sorted key order, arrays by index) -/
-theorem C07_deterministic (env : Env) (fuel : Nat) (h : Heap) (n : Option Id) (cmds : List Bytes) :
-    (h.applyJSONPath env fuel n cmds).2 = (h.applyJSONPath env fuel n cmds).2 := rfl
 
 end Ajson.Props.C07
